@@ -1,4 +1,5 @@
 import OmplModel.Model.SpaceInterp
+import OmplModel.Model.SpaceInterpCar
 import OmplModel.Driver.SpaceIO
 /-!
 Line-protocol driver of the C07 interpolation model (header `spaceinterp`).
@@ -15,11 +16,28 @@ wrapped) plus the Mobius gluing after the cylinder branch (F159 repair; `old159`
 short branch not wrapped), `old` = before the F4 fix (`v > pi`).
 `interp2`: s3 = interpolate(from,to,s); r = interpolate(s3,to,u); direct = interpolate(from,to,s+(1-s)*u).
 `oob-input` when from or to is not in bounds.  States are printed as their leaf values (doubles as u64 bit patterns).
+
+Car-like spaces (round 10).  Top-level `dubins <rho> <sym> <lo>*2 <hi>*2` and `rs <rho> <lo>*2 <hi>*2` are answered from
+`Model/SpaceInterpCar.lean` (the cached-overload machine over C14's Dubins / Reeds-Shepp models):
+  interp / interp2                   -> r <x y yaw> [| s3 … | direct …]           (`nopath` when the planner model has no path)
+  walk <legs> (<from> <to> <k> <t>*k)*legs -> c0 <state> / <state> … | c1 …       one `(firstTime, path)` pair for the whole line,
+                                        `firstTime = true` at every leg, the stale path kept (`Car.walk`)
+Any other space line that mentions a car-like space (Owen / Vana / VanaOwen, compounds and wrappers of car-like spaces) is
+accepted with `ok` and every op on it is answered `nomodel`: there the check's independent oracle judges alone.
 -/
 namespace OmplModel.Driver.SpaceInterpDrv
 open OmplModel OmplModel.Driver OmplModel.SpaceInterp
 
-abbrev DSt := Option (Space Float)
+inductive Top where
+  | plain (sp : Space Float)
+  | dubins (rho : Float) (sym : Bool) (lo hi : List Float)
+  | rs (rho : Float) (lo hi : List Float)
+  | nomodel
+deriving Inhabited
+
+abbrev DSt := Option Top
+
+def carKinds : List String := ["dubins", "rs", "owen", "vana", "vanaowen"]
 
 /-- the shared grammar (`pSpace`) plus the spaces this engine adds: `spacetime <vmax> <tw> u|b <lo> <hi> <space>`
 = SpaceTimeStateSpace, the compound `[(1 - tw, space), (tw, time)]` its constructor builds (it does not
@@ -55,11 +73,98 @@ partial def pSpaceX : P (Space Float)
   | "empty" :: r => some (.rv [] [], r)
   | r => pSpace r
 
-def pTop : P (Space Float)
+def pTopPlain : P (Space Float)
   | "cfw" :: r => do
     let (s, r) ← pSpaceX r
     pure (.wrap s, r)
   | r => pSpaceX r
+
+def pTop : P Top
+  | "dubins" :: r => do
+    let (rho, r) ← pFloat r
+    let (sym, r) ← pNat r
+    let (lo, r) ← pFloats 2 r
+    let (hi, r) ← pFloats 2 r
+    pure (.dubins rho (sym != 0) lo hi, r)
+  | "rs" :: r => do
+    let (rho, r) ← pFloat r
+    let (lo, r) ← pFloats 2 r
+    let (hi, r) ← pFloats 2 r
+    pure (.rs rho lo hi, r)
+  | r =>
+    if r.any (carKinds.contains ·) then some (.nomodel, [])
+    else (pTopPlain r).map (fun (s, r) => (.plain s, r))
+
+open OmplModel.Dubins in
+/-- the SE(2) box of a car-like space, for `satisfiesBounds` of the inputs -/
+def se2Of (lo hi : List Float) : Space Float := .ccons 1 (.rv lo hi) (.ccons 0.5 .so2 .cnil)
+
+def poseSt (p : OmplModel.Dubins.Pose Float) : St Float := .ccons (.rv [p.x, p.y]) (.ccons (.so2 p.th) .cnil)
+
+def pPose : P (OmplModel.Dubins.Pose Float) := fun r => do
+  let (x, r) ← pFloat r
+  let (y, r) ← pFloat r
+  let (th, r) ← pFloat r
+  pure (⟨x, y, th⟩, r)
+
+def showPose (p : OmplModel.Dubins.Pose Float) : String := s!"{floatBits p.x} {floatBits p.y} {floatBits p.th}"
+def showOPose : Option (OmplModel.Dubins.Pose Float) → String
+  | some p => showPose p
+  | none => "nopath"
+
+/-- the ops on a top-level car-like space; `dir` = the 4-argument interpolate, `wk` = a walk on one cache -/
+def carStep (lo hi : List Float)
+    (dir : OmplModel.Dubins.Pose Float → OmplModel.Dubins.Pose Float → Float → Option (OmplModel.Dubins.Pose Float))
+    (wk : List (OmplModel.Dubins.Pose Float × OmplModel.Dubins.Pose Float × List Float) → Option (List (List (OmplModel.Dubins.Pose Float))))
+    (ts : List String) : String :=
+  let inB (p : OmplModel.Dubins.Pose Float) : Bool := inBounds (se2Of lo hi) (poseSt p)
+  match ts with
+  | "interp" :: rest =>
+    match (do
+      let (a, r) ← pPose rest
+      let (b, r) ← pPose r
+      let (t, r) ← pFloat r
+      if r.isEmpty then pure (a, b, t) else none) with
+    | some (a, b, t) =>
+      if !(inB a && inB b) then "oob-input" else s!"r {showOPose (dir a b t)}"
+    | none => "bad-op"
+  | "interp2" :: rest =>
+    match (do
+      let (a, r) ← pPose rest
+      let (b, r) ← pPose r
+      let (s, r) ← pFloat r
+      let (u, r) ← pFloat r
+      if r.isEmpty then pure (a, b, s, u) else none) with
+    | some (a, b, s, u) =>
+      if !(inB a && inB b) then "oob-input" else
+      let s3 := dir a b s
+      let r := s3.bind (fun m => dir m b u)
+      let d := dir a b (s + (1 - s) * u)
+      s!"s3 {showOPose s3} | r {showOPose r} | direct {showOPose d}"
+    | none => "bad-op"
+  | "walk" :: rest =>
+    match (do
+      let (n, r) ← pNat rest
+      let rec legs : Nat → List String → Option (List (OmplModel.Dubins.Pose Float × OmplModel.Dubins.Pose Float × List Float) × List String)
+        | 0, r => some ([], r)
+        | n + 1, r => do
+          let (a, r) ← pPose r
+          let (b, r) ← pPose r
+          let (k, r) ← pNat r
+          let (tv, r) ← pFloats k r
+          let (more, r) ← legs n r
+          pure ((a, b, tv) :: more, r)
+      let (ls, r) ← legs n r
+      if r.isEmpty && n != 0 then pure ls else none) with
+    | some ls =>
+      if !(ls.all (fun (a, b, _) => inB a && inB b)) then "oob-input" else
+      match wk ls with
+      | some outs =>
+        let one (j : Nat) (o : List (OmplModel.Dubins.Pose Float)) : String := s!"c{j} " ++ " / ".intercalate (o.map showPose)
+        " | ".intercalate ((List.range outs.length).zip outs |>.map (fun (j, o) => one j o))
+      | none => "c0 nopath"
+    | none => "bad-op"
+  | _ => "bad-op"
 
 def init (ts : List String) : Option DSt :=
   match ts with
@@ -81,8 +186,24 @@ def step (st : DSt) (ts : List String) : DSt × String :=
     | some _, some (sp, []) => (some sp, "ok")
     | _, _ => (st, "bad-op")
   | ["sanity"] => if st.isSome then (st, "sanity -") else (st, "bad-op")
+  | [] => (st, "bad-op")
+  | op :: rest =>
+  match st with
+  | none => (st, "bad-op")
+  | some .nomodel => (st, if ["interp", "interp2", "walk"].contains op then "nomodel" else "bad-op")
+  | some (.dubins rho sym lo hi) =>
+    let car := Car.dubinsCar rho sym
+    (st, carStep lo hi (Car.direct Car.clsNum car Car.dubinsDefault)
+      (fun ls => (Car.walk (Car.cachedCall Car.clsNum car) ⟨true, Car.dubinsDefault⟩ ls).map (·.1)) (op :: rest))
+  | some (.rs rho lo hi) =>
+    let car := Car.rsCar rho
+    (st, carStep lo hi (Car.direct Car.clsNum car ⟨0, 0, 0, 0, 0, 0⟩)
+      (fun ls => (Car.walk (Car.cachedCall Car.clsNum car) ⟨true, ⟨0, 0, 0, 0, 0, 0⟩⟩ ls).map (·.1)) (op :: rest))
+  | some (.plain sp0) =>
+  let st' : Option (Space Float) := some sp0
+  match op :: rest with
   | "interp" :: rest =>
-    match st with
+    match st' with
     | none => (st, "bad-op")
     | some sp =>
       match (do
@@ -101,7 +222,7 @@ def step (st : DSt) (ts : List String) : DSt × String :=
         (st, s!"r {showSt r} | sb {b01 (inBounds sp r)} | ef {b01 (eqStates sp r a)} | et {b01 (eqStates sp r b)} | old {showSt o} | old61 {showSt p} | old159 {showSt q}")
       | none => (st, "bad-op")
   | "interp2" :: rest =>
-    match st with
+    match st' with
     | none => (st, "bad-op")
     | some sp =>
       match (do
